@@ -492,6 +492,72 @@ func c12(c *core.Ctx) {
 				ok = ok && !reach
 			}
 			rFC.Check(ok, f.Key+":cap-before-write", f.Decl.Pos(), "cap decided before the content is written", "the content is written before the cap decision")
+			// a record that is being created did not match before: the 'pre' side of the four-cell rule
+			// is evaluated only for records that exist (the create flag is the bool set on the
+			// void-content branch); a seed body is not a stored record
+			voidConst := p.Const(pkgTreasure, "ContentTypeVoid")
+			createFlags := map[types.Object]bool{}
+			ast.Inspect(f.Decl.Body, func(y ast.Node) bool {
+				cc, isCC := y.(*ast.CaseClause)
+				if !isCC {
+					return true
+				}
+				isVoid := false
+				for _, e := range cc.List {
+					if core.ObjOf(info, e) == types.Object(voidConst) {
+						isVoid = true
+					}
+				}
+				if !isVoid {
+					return true
+				}
+				for _, st := range cc.Body {
+					if as, isAs := st.(*ast.AssignStmt); isAs && len(as.Lhs) == 1 && len(as.Rhs) == 1 {
+						if v, isB := core.BoolLit(info, as.Rhs[0]); isB && v {
+							createFlags[core.ObjOf(info, as.Lhs[0])] = true
+						}
+					}
+				}
+				return true
+			})
+			// the 'pre' variable: the one negated in the decrement's guard
+			var preObj types.Object
+			for _, cnd := range fl.CondsAt(loc) {
+				ast.Inspect(cnd.Expr, func(y ast.Node) bool {
+					if u, isU := y.(*ast.UnaryExpr); isU && u.Op == token.NOT {
+						if isLocalDefinedFromPredicate(u.X, true) {
+							preObj = core.ObjOf(info, u.X)
+						}
+					}
+					return true
+				})
+			}
+			okPre := preObj != nil && len(createFlags) > 0
+			if okPre {
+				ast.Inspect(f.Decl.Body, func(y ast.Node) bool {
+					as, isAs := y.(*ast.AssignStmt)
+					if !isAs || len(as.Lhs) != 1 || len(as.Rhs) != 1 || core.ObjOf(info, as.Lhs[0]) != preObj {
+						return true
+					}
+					if _, isCall := core.Unparen(as.Rhs[0]).(*ast.CallExpr); !isCall {
+						return true // the initial `pre := false`
+					}
+					la, found := fl.Locate(as)
+					guarded := false
+					if found {
+						for _, ft := range fl.FactsAt(la) {
+							if id, isId := core.Unparen(ft.Expr).(*ast.Ident); isId && createFlags[info.Uses[id]] && !ft.Truth {
+								guarded = true
+							}
+						}
+					}
+					if !guarded {
+						okPre = false
+					}
+					return true
+				})
+			}
+			rFC.Check(okPre, f.Key+":pre-only-for-existing-records", dec.Pos(), "the pre-match is evaluated only when the record existed", "the 'matched before' side of the four-cell rule is also evaluated for a record that is being created (on its seed body): a create whose seed already satisfies the cap filter counts as (yes -> yes), consumes no budget and pushes the number of matching records above the cap")
 		}
 	}
 
